@@ -437,6 +437,8 @@ impl RaftStorage<ClientRequest, ClientResponse> for FileStore {
     async fn get_current_snapshot(
         &self,
     ) -> anyhow::Result<Option<CurrentSnapshotData<Self::Snapshot>>> {
+        #[cfg(rnacos_verif)]
+        crate::verif_hook::tap("get_current_snapshot", String::new());
         if let RaftSnapshotResponse::LastSnapshot(Some(path), Some(header)) = self
             .snapshot_manager
             .send(RaftSnapshotRequest::GetLastSnapshot)
